@@ -72,7 +72,7 @@ class C12(Prop):
         pastify = (kind == 'dt_on_pastified')
         try:
             m = drive.Mon(api, sd, pastify=pastify)
-            alone = dict((nm, drive.Mon(api, {'text': lang.to_text(g), 'vars': names}, pastify=pastify))
+            alone = dict((nm, drive.Mon(api, {'text': c09.text_of(case, g), 'vars': names}, pastify=pastify))
                          for nm, g in bound.items())
         except Exception as e:
             v.skip = 'parse/pastify raised %s' % type(e).__name__
